@@ -365,11 +365,25 @@ impl ImportRoot {
     }
 }
 
-#[derive(Hash, Debug, PartialEq, Eq)]
+#[derive(Debug)]
 struct FileInclude {
     filename: Utf8PathBuf,
     included_by_doc_idx: Option<usize>,
     import_root: Option<ImportRoot>,
+}
+
+// a lazefile is loaded once, no matter how often (or by whom) it is listed.
+// (this also keeps a file that includes itself from being loaded forever.)
+impl PartialEq for FileInclude {
+    fn eq(&self, other: &Self) -> bool {
+        self.filename == other.filename
+    }
+}
+impl Eq for FileInclude {}
+impl std::hash::Hash for FileInclude {
+    fn hash<H: std::hash::Hasher>(&self, state: &mut H) {
+        self.filename.hash(state);
+    }
 }
 
 impl FileInclude {
